@@ -3,7 +3,7 @@ from . import common as C
 
 ALSO_RELEASE = True
 RULE = ('index probe (hook H2): K in {1,4,32,138,250,503,1000} (fan-out 454..5; 138 and 503 make a full node end exactly at the block end), key counts around every leaf/fan-out/min-fill '
-        'boundary up to 3 node levels, version runs longer than a block and ending exactly at block boundaries, '
+        'boundary up to 3 node levels, deep trees with 3 and 4 inner levels (K=1000: 76..400 keys, K=503: 450..900 keys), version runs longer than a block and ending exactly at block boundaries, '
         'timestamp ties and deletion markers, pushes in random order; every present key and absent keys below/between/'
         'above queried in memory, on disk, after load; index file bytes compared with the Coq serialiser (hash masked); '
         'distinct by (K, number of keys, number of leaves class, max run class)')
@@ -18,13 +18,19 @@ def key_of(K, i):
     return v.to_bytes(K, 'big').hex() if K > 1 else bytes([v % 256]).hex()
 
 
-def gen_script(rng, tier, big):
+def gen_script(rng, tier, big, deep=False):
     K = rng.choice([1, 4, 32, 138, 250, 503, 1000] if not big else [250, 503, 503, 138, 1000, 1000])
+    if deep:
+        K = rng.choice([1000, 1000, 503])
     per = PER_LEAF(K)
     fan = FANOUT(K)
     # number of keys: around interesting boundaries
     maxkeys = 120 if K == 1 else (400 if K <= 32 else (700 if K == 138 else (260 if K == 250 else 120)))
-    if big:
+    if deep:
+        # three and four inner levels: more leaves than fan-out squared / cubed (long keys make that cheap)
+        L2, L3 = fan * fan, fan * fan * fan
+        nk = rng.choice([L2 * per + 1, L2 * per + per, (L2 + fan) * per + 2, 2 * L2 * per] + ([L3 * per + 1] if K == 1000 else []))
+    elif big:
         # exactly `fan` leaves (a completely full node), one more, fan+min_fill, two full nodes ...
         nk = rng.choice([fan * per + 1, fan * per, fan * per - per + 1, (fan + 1) * per, (fan + fan // 2 + 1) * per, 2 * fan * per + 3, 3 * per * fan])
         nk = min(nk, maxkeys if K != 1000 else 110)
@@ -110,7 +116,7 @@ def gen(tier, rng):
     n = 140 if tier == 'quick' else 2500
     out = []
     for i in range(n):
-        out.append(('shape%05d' % i, gen_script(rng, tier, big=(i % 10 == 0))))
+        out.append(('shape%05d' % i, gen_script(rng, tier, big=(i % 10 == 0), deep=(i % 20 == 7))))
     return out
 
 
